@@ -318,6 +318,29 @@ def r4(ck):
                 ok = True
         ck.require(ok, "C16-R4", "a Real name is only built after the /dev/null test failed",
                    "Filename::Real is constructed without a dominating comparison with NULL_FILENAME: /dev/null would become a patch target", pf.where(s))
+    # ... and the converse: the absent name (`Filename::DevNull`) is only ever made of the text /dev/null - not of a time stamp, an
+    # empty name, a mode line ... (a real name taken for "absent" turns a modification into a creation / deletion, or leaves a patch
+    # without any name)
+    nnull = 0
+    for fn in sorted(prog.fns.values(), key=lambda f: f.id):
+        if fn.crate != "libpatch":
+            continue
+        for bb, idx, s in fn.stmts():
+            if s["k"] != "assign" or s["rv"]["k"] != "agg" or s["rv"].get("variant") != "DevNull" or not (s["rv"].get("adt") or "").endswith("Filename"):
+                continue
+            if fn.blocks[bb]["cleanup"]:
+                continue
+            nnull += 1
+            ok = False
+            if fn.id == pf.id:
+                for g in gs:
+                    edge = g["true_edge"] if g["expr"][1].endswith("::eq") else g["false_edge"]
+                    if bb in cfg.dominated_by_edge(pf, edge):
+                        ok = True
+            ck.require(ok, "C16-R4", "the absent name is only made of the text /dev/null (%s)" % fn.id.split("::")[-1],
+                       "Filename::DevNull is constructed in %s where the name was not compared equal to NULL_FILENAME: a real file name is taken "
+                       "for 'no file on this side'" % fn.id, fn.where(s), ok_detail="on the equal side of the comparison with NULL_FILENAME")
+    ck.floor("C16-R4", "Filename::DevNull constructions", nnull, 1)
     # only Real payloads reach the builder's names
     for meth in ("FilePatchBuilder::<'a, Line>::old_filename", "FilePatchBuilder::<'a, Line>::new_filename"):
         calls = calls_named(bf, meth)
